@@ -3,7 +3,7 @@
    No Extract Constant directive is used. *)
 From Coq Require Import ExtrOcamlBasic.
 From Coq Require Import ZArith NArith List.
-From V Require Import Model.Quorum Model.Median Model.ZMap Model.HgImpl Model.Store Model.NodeModel Model.HgSpec Model.Gate Model.Proxy Model.FastSync Model.Wire.
+From V Require Import Model.Quorum Model.Median Model.ZMap Model.HgImpl Model.Store Model.NodeModel Model.HgSpec Model.Gate Model.Proxy Model.FastSync Model.Wire Model.Hostile.
 Extraction Language OCaml.
 Set Extraction KeepSingleton.
 Separate Extraction Z.add Z.mul Z.div Z.modulo Z.opp Z.sub Z.of_nat Z.to_nat Z.of_N Z.to_N Z.eqb Z.ltb Z.leb
@@ -20,4 +20,9 @@ Separate Extraction Z.add Z.mul Z.div Z.modulo Z.opp Z.sub Z.of_nat Z.to_nat Z.o
   FastSync.ff_decide FastSync.ff_decide_fixed FastSync.core_ff FastSync.core_ff_fixed FastSync.node_ff
   FastSync.node_ff_fixed FastSync.core_ff_gen FastSync.node_ff_gen FastSync.rule_current FastSync.rule_fixed
   FastSync.distinct_valid_signers FastSync.ffres_class
-  Wire.set_wire_info Wire.to_wire Wire.read_wire Wire.wire_rt Wire.json_rt_wevent Wire.json_rt_itx Wire.json_rt_block Wire.json_rt_frame Wire.db_rt Wire.ug_rt_frame Wire.frame_digest Wire.view_frame Wire.view_block Wire.same_event_hash Wire.verify_preserved Wire.same_itx_hash Wire.same_body_hash Wire.same_block_hash Wire.same_frame_hash.
+  Wire.set_wire_info Wire.to_wire Wire.read_wire Wire.wire_rt Wire.json_rt_wevent Wire.json_rt_itx Wire.json_rt_block Wire.json_rt_frame Wire.db_rt Wire.ug_rt_frame Wire.frame_digest Wire.view_frame Wire.view_block Wire.same_event_hash Wire.verify_preserved Wire.same_itx_hash Wire.same_body_hash Wire.same_block_hash Wire.same_frame_hash
+  Hostile.mkFixes Hostile.decode_from_string Hostile.decode_signature Hostile.to_public_key Hostile.keys_verify
+  Hostile.itx_verify Hostile.event_verify Hostile.block_verify Hostile.parent_at Hostile.pub_key_bytes
+  Hostile.peer_id Hostile.new_peer_set Hostile.get_signatures Hostile.set_signature Hostile.fe_less
+  Hostile.collect_roots Hostile.process_sigpool Hostile.ff_check Hostile.sync_request Hostile.join_request
+  Hostile.eager_sync Hostile.quote_str.
